@@ -132,6 +132,29 @@ Theorem C02_sqrt_exact_square : forall s prec r, regular s -> msign s = 0 -> 0 <
   generic_format radix2 (FLX_exp prec) (sqrt (rv s)) -> exists y, mpf_sqrt s prec r = Ok y /\ rv y = sqrt (rv s).
 Proof. exact sqrt_exact_square. Qed.
 
+(* the integer square roots mpf_sqrt rests on (libintmath, pure-Python backend): the model of mpf_sqrt calls Z.sqrt/Z.sqrtrem;
+   these theorems show the Python routines compute exactly those.  The floating-point seeds are quantified over:
+   r0 is ANY start value not below the root, approx ANY value of isqrt_fast not more than one unit below it
+   (the two hypotheses are monitored on the live seeds by the check). *)
+From MP Require Import Algo.Isqrt Proofs.IsqrtP.
+Theorem C02_isqrt_small_newton : forall x r0, 0 < x -> Z.sqrt x <= r0 -> isqrt_small_newton x r0 = Some (Z.sqrt x).
+Proof. exact isqrt_small_newton_spec. Qed.
+Print Assumptions C02_isqrt_small_newton.
+Theorem C02_newton_sound : forall x, 0 < x -> forall fuel r v, Z.sqrt x <= r -> newton fuel r x = Some v -> v = Z.sqrt x.
+Proof. exact newton_sound. Qed.
+Theorem C02_sqrtrem_fix : forall x approx fuel, 0 <= x -> Z.sqrt x - 1 <= approx -> approx + 1 - Z.sqrt x < Z.of_nat fuel ->
+  sqrtrem_fix fuel x approx = Some (Z.sqrt x, x - Z.sqrt x * Z.sqrt x).
+Proof. exact sqrtrem_fix_spec. Qed.
+Print Assumptions C02_sqrtrem_fix.
+Theorem C02_sqrtrem_pair : forall x, 0 <= x -> Z.sqrtrem x = (Z.sqrt x, x - Z.sqrt x * Z.sqrt x).
+Proof. exact sqrtrem_pair. Qed.
+Theorem C02_isqrt_fast_smallx_ge : forall x y0, 2 ^ 100 <= x -> 0 < y0 -> Z.sqrt x <= isqrt_fast_smallx x y0.
+Proof. exact isqrt_fast_smallx_ge. Qed.
+(* outside the hypothesis of C02_sqrtrem_fix the up-correction loop of sqrtrem_python is wrong (latent: unreachable while
+   isqrt_fast is at most one unit too small) *)
+Example C02_sqrtrem_fix_up_refuted : sqrtrem_fix 10 24 2 = Some (4, 6) /\ Z.sqrtrem 24 = (4, 8).
+Proof. exact sqrtrem_fix_up_refuted. Qed.
+
 (* non-vacuity: 255 rounded to 4 bits to nearest is 256 (carry out of the top bit) *)
 Example C02_witness : normalize 0 255 0 (bitcount 255) 4 RN = Mpf 0 1 8 1.
 Proof. reflexivity. Qed.
